@@ -46,7 +46,7 @@ def corpus():
 
 def generate(rng, tier):
     cases = []
-    nbases = 160 if tier == "quick" else 1500
+    nbases = 400 if tier == "quick" else 1500
     maxperm = 4 if tier == "quick" else 5
     for b in range(nbases):
         big = rng.random() < 0.15
